@@ -21,13 +21,18 @@ import threading
 from vf import common, tlaval, tlc
 
 
+CALLS = []     # what the base phases were called with: (function name, x, y, names of the other arguments)
+
+
 def base1(test, x=0, y=0, **plugs):
   """first base phase"""
+  CALLS.append(('base1', x, y, sorted(plugs)))
   return None
 
 
 def base2(test, x=0, y=0, **plugs):
   """second base phase"""
+  CALLS.append(('base2', x, y, sorted(plugs)))
   return None
 
 
@@ -158,12 +163,20 @@ def replay_history(hist):
       out = []
       t.add_output_callbacks(out.append)
       build.CONF.load(allow_unset_measurements=True, _override=True)
+      del CALLS[:]
       try:
         t.execute()
       finally:
         build.CONF.load(allow_unset_measurements=False, _override=True)
       if not out or out[0].outcome.name != 'PASS':
         bad.append('executing a derived object did not PASS (%s)' % (out and out[0].outcome.name))
+      else:
+        # every phase is called with its own arguments: the defaults of the function overridden by what this very
+        # descriptor was given with with_args() - whatever other derivations of the same function were run before
+        want = [(ph_.func.__name__, ph_.extra_kwargs.get('x', 0), ph_.extra_kwargs.get('y', 0),
+                 sorted(pl.name for pl in ph_.plugs if pl.update_kwargs)) for ph_ in _phases_of(o)]
+        if CALLS != want:
+          bad.append('executing a derived object called its phases with other arguments than their own')
     if new is not None:
       if any(new is o for o in objs):
         bad.append('%s returned its operand instead of a copy' % name)
